@@ -4,6 +4,9 @@ Props/C18.lean — copy() yields an equal, fully independent, parentless object 
    overrides, lazily initialised styles.  Heap facts cannot be expressed in the list model: the
    copy oracle walks the reachable mutable-object graph of original and copy in the interpreter,
    checks disjointness and mutates each side. -/
+(audit2: the paragraph above describes the first, tree-level half of this file.  The section "attributes, containers, …"
+below adds a heap model of eight containers per object; what is still outside: "same field", user writes INTO an array
+handed out by a getter, containers other than the eight, classes other than the six modelled — see checks/C18.py.)
 
 Notation (Lemmas/Copy.lean), for `s.copy o`:
   `s.cnodes o`   the objects that are cloned: the fuel-bounded pre-order walk `s.subtree (s.n+1) o`
@@ -775,6 +778,236 @@ theorem halfbuilt_copy_reachable_after_parent_kw :
     (demoTop.copyKwG 1 [.parent (some 2), .bad]).1.f.children 2 = [3] ∧
     (demoTop.copyKwG 1 [.parent (some 2), .bad]).1.f.parent 3 = some 2 ∧
     (demoTop.copyKwG 1 [.bad, .parent (some 2)]).1.f.children 2 = [] := by decide
+
+/-! ### audit2: the theorems above applied to the demo state (non-vacuity: ALL hypotheses instantiated) -/
+
+def demoSpecs : List Spec :=
+  [{ kind := .coll, cls := 5, pos := [⟨1, 0, 0⟩], arrs := [], scal := [], skw := ⟨some "c".toList, [(0, 1)]⟩ },
+   { kind := .src, cls := 0, pos := [⟨5, 5, 5⟩], arrs := [(.a0, [1, 2, 3]), (.a1, [1, 1, 1])], scal := [], skw := SData.empty }]
+
+/-- `demoA` is a reachable state, so `WF`, `Inv`, `Acyclic` are consequences, not assumptions -/
+theorem demoA_wf : WF demoA ∧ demoA.f.Inv ∧ demoA.f.Acyclic := reachable_wf demoSpecs [.tree (.add 0 [1] false)]
+
+-- (d)(i) applied: `demoLater` (move of the original collection, new polarization of its magnet) leaves both clones alone
+example : ∀ j, IsNew demoA.f 0 j → (run demoLater (demoA.copyKw 0 demoKw)).view j = (demoA.copyKw 0 demoKw).view j :=
+  fun j hj => ((later_ops_invisible demoA demoA_wf.1 demoA_wf.2.1 demoA_wf.2.2 0 (by decide) demoKw demoLater).1
+    (by decide) j hj).1
+
+/-- a history on the copy's side: the cloned magnet is moved, the copy relabelled and re-positioned (which moves its magnet) -/
+def demoLaterCopy : List AOp := [.move 3 (.scalar ⟨2, 0, 0⟩) none, .setLabel 2 "q".toList, .setPos 2 [⟨7, 7, 7⟩]]
+
+example : ∀ op ∈ demoLaterCopy, ∀ i ∈ mentions op, ¬ i < demoA.f.n := by decide
+example : (run demoLaterCopy (demoA.copyKw 0 demoKw)).posOf 3 = [⟨13, 12, 12⟩] := by decide
+-- (d)(ii) applied through the reachable form: the old objects read as before the copy
+example : ∀ j, j < demoA.f.n → (run demoLaterCopy (demoA.copyKw 0 demoKw)).view j = demoA.view j :=
+  fun j hj => (later_ops_invisible_reachable demoSpecs [.tree (.add 0 [1] false)] 0 (by decide) demoKw demoLaterCopy).2
+    (by decide) j hj
+-- (c) applied
+example : ∀ i j sl tl a, i < demoA.f.n → IsNew demoA.f 0 j → ((demoA.copyKw 0 demoKw).na i).adr sl = some a →
+    ((demoA.copyKw 0 demoKw).na j).adr tl ≠ some a :=
+  (copy_heap_disjoint demoA demoA_wf.1 demoA_wf.2.1 demoA_wf.2.2 0 (by decide) demoKw).2.1
+-- (b) applied
+example : (demoA.copyKw 0 demoKw).view 0 = demoA.view 0 :=
+  (copy_overrides_only_copy demoA demoA_wf.1 demoA_wf.2.1 demoA_wf.2.2 0 (by decide) demoKw 0 (by decide)).1
+-- (a) applied to the cloned magnet (x = 1 ≠ o = 0, clone 3): arrays, scalars, style as the original's — the path is not
+-- (a `position=` keyword was given): the last clause of (a) for x ≠ o is silent then
+example : (demoA.copyKw 0 demoKw).cellAt 3 .a0 = demoA.cellAt 1 .a0 ∧ (demoA.copyKw 0 demoKw).styleView 3 = demoA.styleView 1 := by
+  have h := (copy_attrs_equal demoA demoA_wf.1 demoA_wf.2.1 demoA_wf.2.2 0 (by decide) demoKw 1 (by decide)).2.2.1 (by decide)
+  exact ⟨h.1 .a0 (by decide) (by decide), h.2.2.1⟩
+example : (demoA.copyKw 0 demoKw).view 3 = { demoA.view 1 with pos := [⟨4, 5, 14⟩] } := by decide
+
+/-! ### audit2: the copied object itself under keyword arguments
+
+`copy_attrs_equal` says nothing about the copied object itself (x = o) once `kw ≠ []` apart from its class.  Below: every
+container that no keyword names reads as the original's (ported to the keyword set with `orientation=`: it names both
+paths, like `position=`).  The value of a NAMED slot, the scalars under `scal` keywords and the style under `style_*`
+keywords are given by `copy_kw_eq_assignments` above (plain copy, then the assignments in keyword order); that theorem
+does not subsume this one (it relates two runs, this one relates the copy to the ORIGINAL), the two are complementary. -/
+
+/-- the container slots a `copy` keyword rebinds on the copied object -/
+def ovNames : Ov → Slot → Prop
+  | .pos _, sl => sl = .pos ∨ sl = .ori
+  | .ori _, sl => sl = .pos ∨ sl = .ori
+  | .arr sl' _, sl => sl' = sl
+  | _, _ => False
+
+theorem applyOv_root_step (s : AForest) (o : Nat) (hi : s.f.Inv) (ha : s.f.Acyclic) (sl : Slot) (t : AForest)
+    (ht : t.f = s.f.copy o) (hwt : WF t) (ov : Ov) (hn : ¬ ovNames ov sl) :
+    Step (fun j tl => j = s.f.n ∧ tl = sl) (fun _ => False) t (applyOv t s.f.n ov) := by
+  have hroot : s.f.n < (s.f.copy o).n := (root_new s o).2
+  cases ov with
+  | pos p =>
+    simp only [applyOv]
+    split
+    · exact Step.refl _ _ t hwt
+    · refine (setPos_step (NewQ s o) (s.f.copy o) (newQ_closed s o hi ha) _ t s.f.n p ht hwt (root_new s o)
+        hroot).mono ?_ (fun _ h => h.elim)
+      rintro j tl ⟨rfl, rfl⟩
+      exact Or.inr ⟨fun h => hn (Or.inl h), fun h => hn (Or.inr h)⟩
+  | ori r =>
+    simp only [applyOv]
+    split
+    · exact Step.refl _ _ t hwt
+    · refine (setOri_step (NewQ s o) t hwt (by rw [ht]; exact newQ_closed s o hi ha) s.f.n (root_new s o)
+        (by rw [ht]; exact hroot) _).mono ?_ (fun _ h => h.elim)
+      rintro j tl ⟨rfl, rfl⟩
+      exact Or.inr ⟨fun h => hn (Or.inl h), fun h => hn (Or.inr h)⟩
+  | arr sl' v =>
+    simp only [applyOv]
+    split
+    · exact (setFresh_spec t s.f.n sl' (.ints v) hwt).1.mono (fun j tl h hh => hn (hh.2.symm.trans h.2)) (fun _ h => h.elim)
+    · exact Step.refl _ _ t hwt
+  | scal k v =>
+    simp only [applyOv]
+    split
+    · exact (setMeta_spec t s.f.n _ _ hwt).1.mono (fun _ _ _ => trivial) (fun _ h => h.elim)
+    · exact Step.refl _ _ t hwt
+  | label l => exact Step.refl _ _ t hwt
+  | sprop k v => exact Step.refl _ _ t hwt
+
+/-- (a) for the copied object itself UNDER KEYWORD ARGUMENTS: every container that no keyword names reads as the
+original's — position and orientation unless `position=` or `orientation=` is given (each setter pads / slices the other
+path), an array attribute unless that attribute is given
+(the style is `copyKw`'s label / `style_*` business and is excluded) -/
+theorem copy_root_unnamed_slots (s : AForest) (hw : WF s) (hi : s.f.Inv) (ha : s.f.Acyclic) (o : Nat) (ho : o < s.f.n)
+    (kw : List Ov) (sl : Slot) (hsl : sl ≠ .style) (hn : ∀ ov ∈ kw, ¬ ovNames ov sl) :
+    (s.copyKw o kw).cellAt s.f.n sl = s.cellAt o sl := by
+  obtain ⟨hA, _, _, _, _, _, _, cellr⟩ := labelStep_spec s o hw ho
+  have hB := foldl_ov_step (P := fun j tl => j = s.f.n ∧ tl = sl) (M := fun _ => False) (s.f.copy o) s.f.n kw _
+    hA.f_eq hA.wf (fun u ov hov hu hwu => applyOv_root_step s o hi ha sl u hu hwu ov (hn ov hov))
+  have hr : s.f.n < (labelStep s (s.copy0 o) o).f.n := by rw [hA.f_eq]; exact (root_new s o).2
+  have hC : Step (fun j tl => j = s.f.n ∧ tl = sl) (fun _ => False) (labelStep s (s.copy0 o) o) (s.copyKw o kw) := by
+    unfold copyKw
+    simp only
+    split
+    · have hroot : s.f.n < (kw.foldl (fun t ov => applyOv t s.f.n ov) (labelStep s (s.copy0 o) o)).f.n := by
+        rw [hB.f_eq, hA.f_eq]; exact (root_new s o).2
+      exact hB.trans ((setStyle_spec _ s.f.n _ hB.wf hroot).1.mono (fun j tl h hh => hsl (h.2.symm.trans hh.2)) (fun _ h => h.elim))
+    · exact hB
+  rw [hC.keeps.cellAt s.f.n sl ⟨rfl, rfl⟩ hr, cellr sl hsl]
+
+/-- copy of the magnet with a new dimension, a label and an opacity -/
+def demoKw1 : List Ov := [.arr .a1 [2, 2, 2], .label "k".toList, .sprop 0 0]
+theorem demoKw1_names (sl : Slot) (h : sl ≠ .a1) : ∀ ov ∈ demoKw1, ¬ ovNames ov sl := by
+  intro ov hov
+  simp only [demoKw1, List.mem_cons, List.not_mem_nil, or_false] at hov
+  rcases hov with rfl | rfl | rfl
+  · exact fun h' => h h'.symm
+  · exact fun h' => h'
+  · exact fun h' => h'
+example : (demoA.copyKw 1 demoKw1).posOf 2 = demoA.posOf 1 ∧ (demoA.copyKw 1 demoKw1).intsOf 2 .a0 = demoA.intsOf 1 .a0 := by
+  have h := fun sl h1 h2 => copy_root_unnamed_slots demoA demoA_wf.1 demoA_wf.2.1 demoA_wf.2.2 1 (by decide) demoKw1 sl h1
+    (demoKw1_names sl h2)
+  unfold posOf intsOf
+  rw [show demoA.f.n = 2 from by decide] at h
+  rw [h .pos (by decide) (by decide), h .a0 (by decide) (by decide)]
+  exact ⟨rfl, rfl⟩
+example : (demoA.copyKw 1 demoKw1).intsOf 2 .a1 = some [2, 2, 2] ∧ demoA.intsOf 1 .a1 = some [1, 1, 1] := by decide
+
+/-! ### audit2: independence of DIFFERENT TREES in every reachable state (covers interleaved histories)
+
+`later_ops_invisible` speaks about the state RIGHT AFTER one `copy()` and about later histories that name objects of
+one side only: (i) no clone at all, (ii) no object at all that existed before.  A history that works on the copy AND on
+old objects (unrelated ones, or the original) is covered by neither part.  The statement below has no such restriction:
+in ANY reachable state — e.g. long after a copy, with both sides edited, re-parented, copied again — a history that names no
+object of a parent-closed set `P` (a union of whole trees) leaves every object of `P` exactly as it was.  Both parts of
+`later_ops_invisible` are the instances `P = IsNew` / `P = (· < s.f.n)` in the state after the copy.
+(Keyword round: histories now may contain `orientation=` assignments and copies with ANY keywords incl. `parent=` /
+`children=` / raising ones — `mentions` of such a copy lists the objects its keywords name; `copy_kw_frame` is the
+one-copy instance of `closed_set_untouched`, kept because it is stated for `copyKwG` directly.) -/
+
+/-- `j` is connected to `x` by parent links (followed in either direction): the two are in the same tree -/
+def SameTree (f : Forest) (x j : Nat) : Prop := Relation.EqvGen (fun a b => f.parent a = some b) x j
+
+theorem sameTree_closed (f : Forest) (x : Nat) : Closed f (SameTree f x) := by
+  intro a c h
+  exact ⟨fun ha => Relation.EqvGen.trans _ _ _ ha (Relation.EqvGen.rel _ _ h),
+    fun hc => Relation.EqvGen.trans _ _ _ hc (Relation.EqvGen.symm _ _ (Relation.EqvGen.rel _ _ h))⟩
+
+/-- a parent-closed set contains, with an object, its whole tree (so `SameTree f x` is the smallest one containing `x`) -/
+theorem sameTree_of_closed (f : Forest) (Q : Nat → Prop) (hq : Closed f Q) (x j : Nat) (h : SameTree f x j) :
+    Q x ↔ Q j := by
+  induction h with
+  | rel a b hab => exact hq a b hab
+  | refl a => exact Iff.rfl
+  | symm a b _ ih => exact ih.symm
+  | trans a b c _ _ ih1 ih2 => exact ih1.trans ih2
+
+theorem sameTree_lt (f : Forest) (hi : f.Inv) (x : Nat) (hx : x < f.n) (j : Nat) (h : SameTree f x j) : j < f.n := by
+  have key : ∀ a b, Relation.EqvGen (fun a b => f.parent a = some b) a b → (a < f.n ↔ b < f.n) := by
+    intro a b hab
+    induction hab with
+    | rel a b hab => exact ⟨fun _ => (hi.inScope a b hab).1, fun _ => (hi.inScope a b hab).2⟩
+    | refl a => exact Iff.rfl
+    | symm a b _ ih => exact ih.symm
+    | trans a b c _ _ ih1 ih2 => exact ih1.trans ih2
+  exact (key x j h).mp hx
+
+/-- parent-closedness of a set in a consistent forest only has to be checked on the existing objects (decidable) -/
+theorem closed_of_bounded (f : Forest) (hi : f.Inv) (Q : Nat → Prop)
+    (h : ∀ a, a < f.n → ∀ c, c < f.n → f.parent a = some c → (Q a ↔ Q c)) : Closed f Q :=
+  fun a c hac => h a (hi.inScope a c hac).2 c (hi.inScope a c hac).1 hac
+
+/-- general frame theorem of histories: a history naming no object of the parent-closed set `P` of existing objects
+leaves the objects of `P` untouched — reads, record, containers and their content, tree links -/
+theorem closed_set_untouched (s : AForest) (hw : WF s) (hi : s.f.Inv) (ha : s.f.Acyclic) (P : Nat → Prop)
+    (hc : Closed s.f P) (hlt : ∀ j, P j → j < s.f.n) (ops : List AOp)
+    (hm : ∀ op ∈ ops, ∀ i ∈ mentions op, ¬ P i) (j : Nat) (hj : P j) :
+    (run ops s).view j = s.view j ∧ (run ops s).f.parent j = s.f.parent j ∧
+    (run ops s).f.children j = s.f.children j ∧ (run ops s).f.kind j = s.f.kind j ∧
+    (run ops s).na j = s.na j ∧ (∀ sl a, (s.na j).adr sl = some a → (run ops s).heap a = s.heap a) :=
+  (run_sep ops s ⟨hw, hi, ha, hc, hlt⟩ hm).2.view ⟨hw, hi, ha, hc, hlt⟩ j hj
+
+/-- no two trees share mutable state: a history that names no object of the tree of `x` leaves every object of that
+tree untouched -/
+theorem other_trees_untouched (s : AForest) (hw : WF s) (hi : s.f.Inv) (ha : s.f.Acyclic) (x : Nat) (hx : x < s.f.n)
+    (ops : List AOp) (hm : ∀ op ∈ ops, ∀ i ∈ mentions op, ¬ SameTree s.f x i) (j : Nat) (hj : SameTree s.f x j) :
+    (run ops s).view j = s.view j ∧ (run ops s).f.parent j = s.f.parent j ∧
+    (run ops s).f.children j = s.f.children j ∧ (run ops s).f.kind j = s.f.kind j ∧
+    (run ops s).na j = s.na j ∧ (∀ sl a, (s.na j).adr sl = some a → (run ops s).heap a = s.heap a) :=
+  closed_set_untouched s hw hi ha _ (sameTree_closed s.f x) (sameTree_lt s.f hi x hx) ops hm j hj
+
+/-- … in every reachable state, without any well-formedness assumption -/
+theorem other_trees_untouched_reachable (specs : List Spec) (ops0 : List AOp) (x : Nat)
+    (hx : x < (run ops0 (init specs)).f.n) (ops : List AOp)
+    (hm : ∀ op ∈ ops, ∀ i ∈ mentions op, ¬ SameTree (run ops0 (init specs)).f x i) (j : Nat)
+    (hj : SameTree (run ops0 (init specs)).f x j) :
+    (run ops (run ops0 (init specs))).view j = (run ops0 (init specs)).view j := by
+  obtain ⟨hw, hi, ha⟩ := reachable_wf specs ops0
+  exact (other_trees_untouched _ hw hi ha x hx ops hm j hj).1
+
+/-- a history that copies collection 0 and then works on BOTH sides (clone 3 moved, original's magnet re-polarised, copy
+relabelled, original collection moved) — not of the shape either part of `later_ops_invisible` asks for -/
+def demoMixed : List AOp :=
+  [.tree (.add 0 [1] false), .copy 0 (demoKw.map Kw.attr), .move 3 (.scalar ⟨2, 0, 0⟩) none, .setArr 1 .a0 [7, 7, 7],
+   .setLabel 2 "q".toList, .move 0 (.scalar ⟨1, 1, 1⟩) none]
+/-- afterwards: the original collection is rotated, its magnet labelled, the original copied again and put under that copy -/
+def demoThen : List AOp :=
+  [.rotate 0 (.scalar ⟨⟨0, -1, 0⟩, ⟨1, 0, 0⟩, ⟨0, 0, 1⟩⟩) none none, .setLabel 1 "m".toList, .copy 0 [], .tree (.add 4 [0] false)]
+
+example : (run demoMixed (init demoSpecs)).f.n = 4 ∧ (run demoMixed (init demoSpecs)).f.parent 3 = some 2 := by decide
+
+/-- the tree of the copy (objects 2, 3) contains no other object -/
+theorem demoMixed_sep : ∀ i, i < 2 ∨ 4 ≤ i → ¬ SameTree (run demoMixed (init demoSpecs)).f 2 i := by
+  intro i hi h
+  have hcl : Closed (run demoMixed (init demoSpecs)).f (fun j => 2 ≤ j ∧ j < 4) :=
+    closed_of_bounded _ (reachable_wf demoSpecs demoMixed).2.1 _ (by decide)
+  have := (sameTree_of_closed _ _ hcl 2 i h).mp (by decide)
+  omega
+
+-- the theorem applied: the cloned magnet 3 reads the same after `demoThen` …
+example : (run demoThen (run demoMixed (init demoSpecs))).view 3 = (run demoMixed (init demoSpecs)).view 3 :=
+  other_trees_untouched_reachable demoSpecs demoMixed 2 (by decide) demoThen
+    (by
+      intro op hop i hi
+      apply demoMixed_sep
+      revert op i
+      decide)
+    3 (Relation.EqvGen.symm _ _ (Relation.EqvGen.rel _ _ (by decide)))
+-- … while `demoThen` really changes the other side (two new objects, original re-parented, its magnet rotated along)
+example : (run demoThen (run demoMixed (init demoSpecs))).f.n = 6 ∧
+    (run demoThen (run demoMixed (init demoSpecs))).f.parent 0 = some 4 ∧
+    (run demoThen (run demoMixed (init demoSpecs))).posOf 1 ≠ (run demoMixed (init demoSpecs)).posOf 1 := by decide
 
 end Attr
 
